@@ -4,7 +4,7 @@ from ..scen_expr import option_tails, unbalanced, arity
 
 
 def run(ctx):
-    go_chain(ctx, want=('go.validate_before_io',))
+    go_chain(ctx, want=('go.validate_before_io', 'go.chain'))      # every stage the options ask for is in the chain, so start() reaches the output process where csv is validated
     option_tails(ctx)
     unbalanced(ctx)
     arity(ctx)
